@@ -3,9 +3,9 @@
 
    The Traces of a model are the cells of a NumPy object array.  VectorContainer.reindex (fsic/core/containers.py) builds
    the new instance's array as np.full(len(span), None, dtype=object) and then, for every period that exists in both
-   spans, assigns `reindexed['trace'][new] = self['trace'][old]` — the REFERENCE to the same Trace object (DESIGN.md
-   finding #21 seen from the tracer).  Periods that are new keep None.  copy() deep-copies the array: every Trace object
-   is duplicated.  trace_t then either replaces a cell by a NEW Trace (empty Trace or reset=True) or appends IN PLACE to
+   spans, assigns a deep copy of the original's cell (fix 28b2a9a; before it the REFERENCE to the same Trace object was
+   assigned — DESIGN.md finding #21 seen from the tracer).  Periods that are new keep None.  copy() deep-copies the
+   array: every Trace object is duplicated.  trace_t then either replaces a cell by a NEW Trace (empty Trace or reset=True) or appends IN PLACE to
    the object the cell refers to; on a None cell `None.is_empty()` raises AttributeError. *)
 From Coq Require Import ZArith List Bool.
 Import ListNotations.
@@ -17,8 +17,22 @@ Section Reindex.
   Definition theap := list (trace num).
   Definition tderef (h : theap) (r : addr) : trace num := nth r h (empty_trace num).
 
-  (* positions: for each period of the NEW span, its position in the old span (None = a new period) *)
-  Definition reindex_cells (positions : list (option nat)) (cells : list tcell) : list tcell :=
+  (* positions: for each period of the NEW span, its position in the old span (None = a new period).
+     Since fix 28b2a9a the object of a period both spans have is deep-copied (`copy.deepcopy(self[name][old])`): the cell
+     of the new instance refers to a NEW object with the same contents; a period that is new keeps None. *)
+  Fixpoint reindex_cells (positions : list (option nat)) (cells : list tcell) (h : theap) : list tcell * theap :=
+    match positions with
+    | [] => ([], h)
+    | None :: r => let '(cs, h') := reindex_cells r cells h in (None :: cs, h')
+    | Some q :: r =>
+        match nth q cells None with
+        | None => let '(cs, h') := reindex_cells r cells h in (None :: cs, h')          (* deepcopy(None) is None *)
+        | Some a => let '(cs, h') := reindex_cells r cells (h ++ [tderef h a]) in (Some (length h) :: cs, h')
+        end
+    end.
+
+  (* before that fix (the reverse patch): `reindexed[name][new] = self[name][old]` — the REFERENCE was copied *)
+  Definition reindex_cells_shared (positions : list (option nat)) (cells : list tcell) : list tcell :=
     map (fun o => match o with Some q => nth q cells None | None => None end) positions.
 
   Fixpoint copy_cells (cells : list tcell) (h : theap) : list tcell * theap :=
